@@ -14,7 +14,7 @@ from ..world import real_eval
 
 ID = 'C19'
 LEVEL = 'exploration'
-TIERS = {'quick': 2500, 'thorough': 100000}
+TIERS = {'quick': 5000, 'thorough': 200000}
 RULE = ('seeded histories of 3-10 evals on one parser; each eval makes n (50-500, >= 40x the range width when the '
         'range is narrow) draws of rand() / rand(a, b) / rand(list) / shuffle(list) under a scripted entropy source '
         '(seeded stream, or 1-8 extreme words - zero / one / alternating - then the stream); bounds: Decimal literals, '
